@@ -336,6 +336,7 @@ func evaluate(s *hx.Session, c tcase, outs []string) {
 	parts := strings.Fields(c.hdr)
 	secret, _ := strconv.Atoi(parts[0])
 	ttl, _ := strconv.ParseInt(parts[1], 10, 64)
+	rttl, _ := strconv.ParseInt(parts[2], 10, 64)
 	acc := map[int]*issuedTok{} // A<j>
 	hasR := map[int]bool{}
 	pairOf := func(name string) (int, bool) { // session index of A<j>/R<j>
@@ -390,6 +391,12 @@ func evaluate(s *hx.Session, c tcase, outs []string) {
 				}
 				if b[0][0] == 'A' {
 					s.Hit("refresh_accepts_access_token")
+				}
+				if acc[k].revoked {
+					s.Fail("C35/refresh-after-revoke", "Refresh succeeded with a token of a session that RevokeToken had torn down", op)
+				}
+				if T > acc[k].exp-ttl+rttl {
+					s.Fail("C35/refresh-after-refresh-expiry", "Refresh succeeded after the refresh lifetime", op)
 				}
 				if T > acc[k].exp {
 					s.Hit("refresh_after_access_expiry")
@@ -463,7 +470,7 @@ func drive(o hx.RunOpts) error {
 		"a revocation of an issued token, or a mutated token")
 	p := hx.NewPrng(o.Seed)
 	cases := corpus()
-	n := o.N(300, 5000)
+	n := o.N(300, 12000)
 	maxLen := 5
 	if o.Thorough() {
 		maxLen = 6
